@@ -242,10 +242,152 @@ def replay_again(extract, work, rep):
         rb = int(real["ret"], 16)
     except Exception:
         return None
-    ty = rep["sig"].split(",")[0]
+    ty = rep["sig"].split(",")[0] if "," in rep["sig"] else "f64"
     rt = rep["sig"].split("->")[1]
     print("documented:", rep.get("documented"), hex(rep["documented_bits"]), "real:", hex(rb))
     return not same_result(ty, rt, rb, rep["documented_bits"])
+
+
+# ---------------------------------------------------------------------------- address built-ins: pure delegations
+# IpAddr / Prefix methods are documented as the std / inetnum operation of the same name. Their operand types have no
+# useful SMT theory, so the operands are values of uninterpreted sorts and every std / inetnum function is an
+# uninterpreted function named after its MIR callee: z3 decides  body(self, other) == documented_callee(self, other),
+# i.e. "the wrapper is that function applied to its parameters in that order and nothing else".
+DELEGATIONS = {
+    ("std::net::IpAddr", "eq"): (r"<std::net::IpAddr as (?:std::cmp::)?PartialEq>::eq", [0, 1], "bool"),
+    ("std::net::IpAddr", "is_ipv4"): (r"std::net::IpAddr::is_ipv4", [0], "bool"),
+    ("std::net::IpAddr", "is_ipv6"): (r"std::net::IpAddr::is_ipv6", [0], "bool"),
+    ("std::net::IpAddr", "to_canonical"): (r"std::net::IpAddr::to_canonical", [0], "IpAddr"),
+    ("Prefix", "addr"): (r"(?:inetnum::addr::)?Prefix::addr", [0], "IpAddr"),
+    ("Prefix", "min_addr"): (r"(?:inetnum::addr::)?Prefix::min_addr", [0], "IpAddr"),
+    ("Prefix", "max_addr"): (r"(?:inetnum::addr::)?Prefix::max_addr", [0], "IpAddr"),
+    ("Prefix", "len"): (r"(?:inetnum::addr::)?Prefix::len", [0], "u8"),
+    ("Prefix", "eq"): (r"<(?:inetnum::addr::)?Prefix as (?:std::cmp::)?PartialEq>::eq", [0, 1], "bool"),
+}
+# concrete probes for the replay of a delegation mismatch: (script body returning bool, expected answer) - the expected
+# answers are those of Rust's std::net / inetnum (IPv4 never equals IPv6; to_canonical unmaps ::ffff:a.b.c.d; ...)
+PROBES = {
+    ("std::net::IpAddr", "eq"): [("1.2.3.4.eq(1.2.3.4)", True), ("1.2.3.4.eq(1.2.3.5)", False), ("1.2.3.4.eq(::ffff:102:304)", False),
+                                 ("::ffff:102:304.eq(1.2.3.4)", False), ("::1.eq(::1)", True), ("0.0.0.0.eq(::)", False)],
+    ("std::net::IpAddr", "is_ipv4"): [("1.2.3.4.is_ipv4()", True), ("::ffff:102:304.is_ipv4()", False), ("::.is_ipv4()", False)],
+    ("std::net::IpAddr", "is_ipv6"): [("1.2.3.4.is_ipv6()", False), ("::ffff:102:304.is_ipv6()", True), ("::1.is_ipv6()", True)],
+    ("std::net::IpAddr", "to_canonical"): [("::ffff:102:304.to_canonical() == 1.2.3.4", True), ("1.2.3.4.to_canonical() == 1.2.3.4", True),
+                                           ("::1.to_canonical() == ::1", True), ("::ffff:102:304.to_canonical() == ::ffff:102:304", False)],
+    ("Prefix", "addr"): [("(10.1.2.0 / 24).addr() == 10.1.2.0", True), ("(2001:db8:: / 32).addr() == 2001:db8::", True)],
+    ("Prefix", "min_addr"): [("(10.1.2.0 / 24).min_addr() == 10.1.2.0", True)],
+    ("Prefix", "max_addr"): [("(10.1.2.0 / 24).max_addr() == 10.1.2.255", True), ("(10.0.0.0 / 8).max_addr() == 10.255.255.255", True)],
+    ("Prefix", "len"): [("(10.1.2.0 / 24).len() == 24", True), ("(0.0.0.0 / 0).len() == 0", True), ("(2001:db8:: / 32).len() == 32", True)],
+    ("Prefix", "eq"): [("(10.1.2.0 / 24).eq(10.1.2.0 / 24)", True), ("(10.1.2.0 / 24).eq(10.1.2.0 / 25)", False), ("(10.1.2.0 / 24).eq(10.1.3.0 / 24)", False)],
+}
+_SORTS, _UFS = {}, {}
+
+
+def usort(name):
+    if name not in _SORTS:
+        _SORTS[name] = z3.DeclareSort(name)
+    return _SORTS[name]
+
+
+def zsort(kind):
+    return z3.BoolSort() if kind == "bool" else (z3.BitVecSort(8) if kind == "u8" else usort(kind))
+
+
+def short_type(t):
+    return "IpAddr" if t.endswith("IpAddr") else ("Prefix" if t.endswith("Prefix") else t)
+
+
+class DInterp(M.Interp):
+    """every call is an uninterpreted function of its (dereferenced) arguments; the result sort comes from a table of
+    the std / inetnum functions this engine knows the signature of"""
+    RET = [(r"PartialEq>::(eq|ne)$", "bool"), (r"::is_ipv[46]$|::is_loopback$|::is_unspecified$|::is_multicast$", "bool"),
+           (r"IpAddr::to_canonical$|Prefix::(addr|min_addr|max_addr)$", "IpAddr"), (r"Prefix::len$", "u8")]
+
+    def call(self, callee, argv, depth):
+        args = []
+        for v in argv:
+            while isinstance(v, M.Ref):
+                v = v.get()
+            if not isinstance(v, M.Scalar):
+                raise M.Unsupported(f"call {callee} with a non-scalar argument")
+            args.append(v.t)
+        kind = next((k for rx, k in self.RET if re.search(rx, callee)), None)
+        if kind is None:
+            raise M.Unsupported(f"call {callee} (no signature known to engine B)")
+        key = (callee, tuple(str(a.sort()) for a in args), kind)
+        if key not in _UFS:
+            _UFS[key] = z3.Function(re.sub(r"[^A-Za-z0-9_]", "_", callee) + f"_{len(_UFS)}", *[a.sort() for a in args], zsort(kind))
+        return M.Scalar(_UFS[key](*args), kind)
+
+
+def registrations_any(text):
+    out = {}
+    for m in REG.finditer(text):
+        params, ret, recv, path, name = m.groups()
+        out[(recv, name)] = ([p.strip() for p in params.split(",") if p.strip()], ret or "()", path)
+    return out
+
+
+def check_delegations(mir_text, repo, extract, work, timeout_ms=30000):
+    regs = registrations_any(mir_text)
+    mir = M.Mir(mir_text, repo)
+    rows = []
+    for (recv, name), (callee_rx, order, kind) in sorted(DELEGATIONS.items()):
+        row = {"type": short_type(recv), "name": name, "status": "ok", "queries": 0}
+        rows.append(row)
+        key = next((k for k in regs if k[1] == name and short_type(k[0]) == short_type(recv)), None)
+        if key is None:
+            row["status"], row["why"] = "inconclusive", f"{short_type(recv)}.{name} is not among the registrations found in the MIR dump"
+            continue
+        params, ret, path = regs[key]
+        bodies = [f for k, v in mir.fns.items() for f in v if k.startswith(path + "::<impl") and k.endswith("::__ext__")]
+        if len(bodies) != 1:
+            row["status"], row["why"] = "inconclusive", f"{len(bodies)} MIR bodies for {path}"
+            continue
+        f = bodies[0]
+        syms = [z3.Const(f"p{i}", usort(short_type(p))) for i, p in enumerate(params)]
+        it = DInterp(mir, True, {})
+        env = {p: M.Scalar(v, short_type(t)) for p, v, t in zip(f["params"], syms, params)}
+        try:
+            got = it.run(f, "bb0", env)
+        except (M.Unsupported, M.Loud) as e:
+            row["status"], row["why"] = "inconclusive", f"MIR body not encodable: {e}"
+            continue
+        # the documented operation: the UF of the callee the body is expected to call, applied to the parameters in order
+        cands = [(k, uf) for k, uf in _UFS.items() if re.fullmatch(callee_rx, k[0]) and k[2] == kind and len(k[1]) == len(order)]
+        row["body"] = str(got.t)[:160]
+        if not cands:
+            want_ok = False
+        else:
+            s = z3.Solver()
+            s.set("timeout", timeout_ms)
+            s.add(z3.And([got.t != uf(*[syms[i] for i in order]) for _, uf in cands]))
+            row["queries"] += 1
+            want_ok = s.check() == z3.unsat
+        if want_ok:
+            continue
+        # not the documented delegation: confirm on concrete probes against the real JIT
+        os.makedirs(work, exist_ok=True)
+        failed = []
+        for i, (expr, expected) in enumerate(PROBES.get((recv, name), [])):
+            script = os.path.join(work, f"probe_{short_type(recv)}_{name}_{i}.roto")
+            open(script, "w").write(f"fn main() -> bool {{\n    {expr}\n}}\n")
+            p = subprocess.run([extract, "run", script, "main", "->bool"], capture_output=True, text=True, timeout=120)
+            try:
+                real = int(json.loads(p.stdout.strip().split("\n")[-1])["ret"], 16) == 1
+            except Exception:
+                continue
+            if real != expected:
+                failed.append({"script": open(script).read(), "expected": expected, "real": real})
+        row["probes_failed"] = failed
+        if failed:
+            row["status"] = "violation"
+            row["detail"] = (f"{short_type(recv)}.{name} is not its documented operation ({row['body']}): `{failed[0]['script'].splitlines()[1].strip()}` "
+                             f"gives {failed[0]['real']}, Rust's counterpart gives {failed[0]['expected']}")
+            row["replay"] = {"script": failed[0]["script"], "sig": "->bool", "args": [], "documented": str(failed[0]["expected"]),
+                             "documented_bits": 1 if failed[0]["expected"] else 0}
+        else:
+            row["status"], row["why"] = "inconclusive", f"the wrapper body ({row['body']}) is not the documented delegation, but no concrete probe shows a different answer"
+    return rows
 
 
 def bits_of_float(ty, v):
@@ -259,3 +401,5 @@ if __name__ == "__main__":
     for r in rows:
         print(r["type"], r["name"], r["status"], r.get("why", ""), r.get("detail", ""), r.get("body", "")[:80])
     print(round(secs, 1), "s")
+    for r in check_delegations(text, os.environ.get("VERIF_REPO", "/repo"), os.path.join(build, "extract", "debug", "extract"), os.path.join(build, "builtins")):
+        print(r["type"], r["name"], r["status"], r.get("why", ""), r.get("detail", ""), r.get("body", "")[:100])
